@@ -1,4 +1,5 @@
 import UtilModel.Core.Driver
+import UtilModel.Core.DriverH
 import UtilModel.CContainer.Model
 import UtilModel.CContainer.Monitors
 /-! Development driver for this component only:
@@ -7,5 +8,5 @@ open UtilModel
 
 def main (args : List String) : IO UInt32 :=
   driverMain [
-    mkEntry "ccontainer" CContainer.model CContainer.Obs.parse [MonEntry.ofMonitor "C15" CContainer.monC15]
+    mkEntryH "ccontainer" CContainer.model CContainer.Obs.parse [MonEntry.ofMonitor "C15" CContainer.monC15]
   ] args
